@@ -1125,9 +1125,12 @@ class TestResult(unittest.TestResult):
                 #       printed for every subsequent test.
 
         # Did the test leave any new threads behind?
+        # Threads are compared by ident, and the ident of a thread that has
+        # ended meanwhile may have been handed on to a new thread.
+        old_threads = [t for t in self._threads if t.is_alive()]
         new_threads = []
         for t in threadsupport.enumerate():
-            if t.is_alive() and t not in self._threads:
+            if t.is_alive() and t not in old_threads:
                 if not any([re.match(p, t.name)
                             for p in self.options.ignore_new_threads]):
                     new_threads.append(t)
